@@ -240,6 +240,9 @@ class Models:
                     tgt = st.target.id
                 if tgt == "model_config" and isinstance(st.value, ast.Call):
                     return {k.arg: k.value for k in st.value.keywords if k.arg}
+                if tgt == "model_config" and isinstance(st.value, ast.Dict):
+                    # a plain dict is accepted by pydantic as well
+                    return {k.value: v for k, v in zip(st.value.keys, st.value.values) if isinstance(k, ast.Constant) and isinstance(k.value, str)}
         return {}
 
 
